@@ -48,3 +48,16 @@ PROPS = {
         assumptions=['observation of the private status goes through the Debug text of State'],
     ),
 }
+
+
+# cluster fragments: lib/props.d/<name>.py, each defining PROPS = {...}
+import glob as _glob
+import importlib.util as _ilu
+import os as _os
+
+for _f in sorted(_glob.glob(_os.path.join(_os.path.dirname(_os.path.abspath(__file__)), 'props.d', '*.py'))):
+    _spec = _ilu.spec_from_file_location('props_' + _os.path.basename(_f)[:-3], _f)
+    _m = _ilu.module_from_spec(_spec)
+    _spec.loader.exec_module(_m)
+    for _k, _v in _m.PROPS.items():
+        PROPS[_k] = _v
